@@ -524,31 +524,46 @@ func (e *Env) markerDiscipline() {
 		})
 	}
 	e.Run.Floor("R-SPACE", "marker stores", n, 1)
-	// applyDecorations: the line-break block is guarded by isLineComment || isNewline, defined from the text
+	// applyDecorations: the line break (marker store) happens exactly for line comments and "\n"
 	fd := load.FuncDecl(pkg, "FileRestorer", "applyDecorations")
 	if fd == nil {
 		return
 	}
-	defs := map[string]string{}
-	guard := ""
-	ast.Inspect(fd.Body, func(nd ast.Node) bool {
-		switch x := nd.(type) {
-		case *ast.AssignStmt:
-			if x.Tok == token.DEFINE && len(x.Lhs) == 1 && len(x.Rhs) == 1 {
-				defs[c.ExprStr(x.Lhs[0])] = c.ExprStr(x.Rhs[0])
-			}
-		case *ast.IfStmt:
-			for _, st := range x.Body.List {
-				if as, ok := st.(*ast.AssignStmt); ok && len(as.Lhs) == 1 && e.isRestorerField(info, as.Lhs[0], "cursorAtNewLine") {
-					guard = c.ExprStr(x.Cond)
-				}
-			}
+	c.ComputeSubst(fd.Body.List, map[string]bool{"cursor": true, "cursorAtNewLine": true, "lines": true, "comments": true})
+	defer func() { c.Subst = nil }()
+	var loop *ast.RangeStmt
+	for _, st := range fd.Body.List {
+		if rs, ok := st.(*ast.RangeStmt); ok {
+			loop = rs
+		}
+	}
+	if loop == nil {
+		return
+	}
+	dName := "d"
+	if id, ok := loop.Value.(*ast.Ident); ok {
+		dName = id.Name
+	}
+	var marker ast.Node
+	ast.Inspect(loop.Body, func(nd ast.Node) bool {
+		if as, ok := nd.(*ast.AssignStmt); ok && len(as.Lhs) == 1 && e.isRestorerField(info, as.Lhs[0], "cursorAtNewLine") {
+			marker = as
 		}
 		return true
 	})
-	okG := (guard == "isLineComment || isNewline" || guard == "isNewline || isLineComment") && defs["isNewline"] == `d == "\n"` && defs["isLineComment"] == `strings.HasPrefix(d, "//")`
-	e.Run.Check("R-SPACE", "applyDecorations: a line comment or \"\\n\" decoration contributes exactly its own line break", e.Prog.Pos(fd.Pos()), okG,
-		fmt.Sprintf("line-break block guarded by %q with isNewline := %s, isLineComment := %s", guard, defs["isNewline"], defs["isLineComment"]))
+	if marker == nil {
+		e.Run.Violation("R-SPACE", "applyDecorations: a line comment or \"\\n\" decoration contributes exactly its own line break", e.Prog.Pos(fd.Pos()), "no fresh-line marker store in the decoration loop")
+		return
+	}
+	pc, ok := pathCond(c, loop.Body.List, marker)
+	want := fmt.Sprintf("strings.HasPrefix(%s, \"//\") || %s == \"\\n\"", dName, dName)
+	eq, dec := equivalentGuards(pc, want)
+	if !ok || !dec {
+		e.Run.Undecided("R-SPACE", "applyDecorations: a line comment or \"\\n\" decoration contributes exactly its own line break", e.Prog.Pos(marker.Pos()), "path condition outside the propositional subset: "+pc)
+		return
+	}
+	e.Run.Check("R-SPACE", "applyDecorations: a line comment or \"\\n\" decoration contributes exactly its own line break", e.Prog.Pos(marker.Pos()), eq,
+		fmt.Sprintf("the line break is emitted when «%s»; it must be emitted exactly when the decoration is a // comment or \"\\n\"", pc))
 }
 
 func init() {
